@@ -24,6 +24,11 @@ type FrScript struct {
 	Bounds []int    `json:"bounds"` // packet indices (1-based) after which the stream is cut; nil = after every packet
 	Cuts   [][2]int `json:"cuts"`   // extra cuts inside packets: [packet index, byte offset (negative = from the end)]
 	BadLen [][2]int `json:"badlen"` // [packet index, length-field value] overrides
+	// Empties (websocket, mode msg): before the segments with these indices (0-based) an EMPTY binary message is sent -
+	// a segmentation with two cuts at the same position
+	Empties []int `json:"empties,omitempty"`
+	// EndWith (legacy, mode msg): the last segment's chunk and the chunk that ends the request body leave in ONE write
+	EndWith bool `json:"endWith,omitempty"`
 }
 
 func (f *FrScript) key() string {
@@ -165,6 +170,7 @@ func (i *Inst) runFraming(f *FrScript, rng *rand.Rand, segmented bool) (stream [
 		return fmt.Sprintf("alive=%v cid=%s events=%v", p.Alive(), t.Cid, evd)
 	}
 	exited := false
+	endSent := false
 	mode := f.Mode
 	if !segmented {
 		mode = "msg"
@@ -202,11 +208,21 @@ func (i *Inst) runFraming(f *FrScript, rng *rand.Rand, segmented bool) (stream [
 			}
 		}
 	} else {
-		for _, sg := range segs {
+		for si, sg := range segs {
 			mark := p.Mark()
 			var e error
 			if t.WS != nil {
+				for _, k := range f.Empties {
+					if k == si && segmented {
+						t.WS.WriteBinary([]byte{})
+						time.Sleep(2 * time.Millisecond)
+					}
+				}
 				e = t.WS.WriteBinary(sg)
+			} else if f.EndWith && segmented && mode == "msg" && si == len(segs)-1 {
+				// the last chunk of data and the terminating chunk in one write
+				e = t.In.WriteRaw(append(wsraw.Chunk(sg), []byte("0\r\n\r\n")...))
+				endSent = true
 			} else if mode == "rawchunk" {
 				// one HTTP chunk for the segment, written in two TCP writes
 				ch := wsraw.Chunk(sg)
@@ -241,7 +257,9 @@ func (i *Inst) runFraming(f *FrScript, rng *rand.Rand, segmented bool) (stream [
 		if t.WS != nil {
 			t.WS.WriteRawFrame(8, true, []byte{0x03, 0xe8})
 		} else {
-			t.In.WriteRaw([]byte("0\r\n\r\n"))
+			if !endSent {
+				t.In.WriteRaw([]byte("0\r\n\r\n"))
+			}
 			t.In.Close()
 		}
 		if idx, _ := p.Wait(start, 15*time.Second, func(e gw.Event) bool { return e.Cid == t.Cid && e.Pt == "proc.exit" }); idx < 0 {
